@@ -11,6 +11,8 @@ NOTE_S = "reals stand in for floats (IEEE rounding / float32 storage outside the
 CHECKS = {
     "C01": dict(engine="S", text="bounded symbolic execution of the real accessor methods with every spectral bin a symbolic real >= 0 on a fixed family of grids; z3 proves impl == defining integral for all such spectra or returns a spectrum that is replayed in floats", ref="6/C01"),
     "C02": dict(engine="S", text="the real _peak / xrstats / npstats peak code is executed on symbolic 1-D and 2-D spectra (every path = one ordering pattern of the bins); on every path z3 proves the returned period/frequency/direction/spread/alpha/gamma is the one of a highest interior strict local maximum (NaN iff none), with the parabola vertex strictly between the neighbours", ref="6/C02"),
+    "C05": dict(engine="S", text="relational symbolic runs of every catalogue operation on the same symbolic data stored with dims transposed, directions rolled by every offset and reversed: z3 proves label-for-label equality; for the C boundary the strides numpy really hands to specpart.partition (recorded on 10 layout/dtype variants through the real wrappers) are checked by SMT against the address map of the C code and mismatches are replayed against the real extension", ref="6/C05"),
+    "C06": dict(engine="S", text="batched symbolic datasets with independent variables per position: z3 proves op(batch)[p] == op(batch[p]) for every catalogue operation and a syntactic support check shows the result at p mentions no variable of another position; Dataset accessor == efth accessor", ref="6/C06"),
     "C08": dict(engine="S", text="regrid_spec / interp / rotate executed on symbolic spectra with the xarray interpolation replaced by a differential-tested 1-D linear contract; z3 proves the output equals the periodic-linear reference bin by bin (exact on nodes, both seam neighbours used), non-negativity, zero above fmax, Hs conservation under maintain_m0, whole-bin rotation == circular shift", ref="6/C08"),
     "C09": dict(engine="S", text="PTM4 with symbolic wind speed (the boundary celerity = wind component is a satisfying assignment, not a sampled accident), bbox with all box limits symbolic, split/PTM5 on listed on- and off-node cutoffs: z3 proves every bin is assigned by the stated rule, partitions are disjoint and sum to the input, overlapping boxes raise", ref="6/C09"),
     "C10": dict(engine="S", text="relational symbolic runs of the real statistics on S and kS (k symbolic for polynomial statistics), on S and S with relabelled directions, plus Cauchy-Schwarz bounds proven as generic lemmas and instantiated on the implementation's outputs, and scale_by_hs with symbolic coefficients and range limits", ref="6/C10"),
